@@ -36,3 +36,4 @@ pub fn set_watch(_w: Vec<(u64, u64)>) {}
 pub fn watch_snapshot() -> Vec<Vec<u8>> {
     Vec::new()
 }
+pub fn forget_owned() {}
